@@ -120,6 +120,7 @@ static Result* g_res = nullptr;
 static uint64_t g_cur_seed = 0;
 static int g_cur_faults = 0;
 static const char* g_tier = "quick";
+static const char* g_emit_decisions_path = nullptr;
 
 inline void FAIL(const char* cls, const char* fmt, ...) {
     if (!g_res || !g_res->ok) return;  // keep the first violation
@@ -176,6 +177,8 @@ inline void emit_fatal(const char* cls, const char* msg) {
     n += snprintf(buf + n, sizeof buf - n, "\"}\n");
     ssize_t r = write(1, buf, n);
     (void)r;
+    // the schedule that led here (for replay/minimisation of crashes, assertions and verdicts)
+    sim::dump_decisions(g_emit_decisions_path);
 }
 
 inline void crash_handler(int sig) {
@@ -383,6 +386,7 @@ inline bool run_one(uint64_t seed, const Options& o) {
     }
     Result res;
     g_res = &res;
+    g_emit_decisions_path = o.emit_decisions;
     g_cur_seed = seed;
     g_cur_faults = faults_on;
     sim::run_begin(cfg);
